@@ -668,8 +668,11 @@ class Check:
             'broken_obligations': self.broken[:5],
             'exhaustive': bool(getattr(self, 'exhaustive', False)),
         }
+        level = self.level
+        if level == 'proof' and self.obligations == 0:
+            level = 'exploration'      # nothing was proved in this run: do not claim it
         ev = {
-            'property_id': self.prop, 'tier': self.tier, 'seed': self.seed, 'level': self.level,
+            'property_id': self.prop, 'tier': self.tier, 'seed': self.seed, 'level': level,
             'coverage': cov, 'assumptions': self.assumptions + COMMON_ASSUMPTIONS,
             'wall_s': round(time.time() - self.t0, 2), 'violations': violations,
             'notes': self.notes,
